@@ -11,7 +11,7 @@
 //     receiver without package (".list.add"), call Type values the Java front end writes
 //   - class-level calls (field initialisers): recorded in the class, made by no method
 //   - class Types other than "Class" (Interface, CreatorClass, InnerStructures); methods named
-//     like accessors or main (getM, setM, get, isM, main)
+//     like accessors, main, Object's methods or JUnit's (getM, setM, get, isM, main, toString, equals, hashCode, testM, setUp)
 //   - up to 8 classes
 //   - shape 3: a call tree of exactly K expandable methods (K = 5..9, the budget is 7)
 //   - overloads (two functions of one name in a class) when asked for (C04 only)
@@ -37,7 +37,7 @@ var wExtPkgs = []string{"java.util", "org.ext", "x"}
 // pairs of packages where the first is a string suffix of the second
 var wSuffixPkgs = map[string][]string{"b": {"a.b", "ab"}, "c": {"a.c", "bc"}, "a.b": {"b"}, "ab": {"b"}, "a.c": {"c"}, "bc": {"c"}}
 
-var wAltMethodNames = []string{"m0", "m00", "xm0", "m1", "m01", "run", "getM", "setM", "get", "isM", "main"}
+var wAltMethodNames = []string{"m0", "m00", "xm0", "m1", "m01", "run", "getM", "setM", "get", "isM", "main", "toString", "equals", "hashCode", "testM", "setUp"}
 var wClassTypes = []string{"", "Interface", "CreatorClass", "InnerStructures"}
 var wCallTypes = []string{"", "lambda", "CreatorClass", "field"}
 
@@ -287,9 +287,16 @@ func wMutate(t *rapid.T, m mgen.Model) mgen.Model {
 	return out
 }
 
+// xArgs: number of arguments recorded for call k of function j of class i.
+func xArgs(i, j, k int) int { return (i + 2*j + k) % 3 }
+
+// xIsTest: function j of class i carries @Test.
+func xIsTest(i, j int) bool { return (3*i+j)%7 == 5 }
+
 // toCoca converts a model and fills in, as a fixed function of the position in the model, the
 // fields a parsed project carries and the call relation does not depend on: positions (every call
-// site has its own), modifiers, @Override, return and parameter types.
+// site has its own), modifiers, @Override, @Test, return and parameter types, the arguments of a call.
+
 func toCoca(m mgen.Model) []core_domain.CodeDataStruct {
 	out := m.ToCoca()
 	for i := range out {
@@ -311,8 +318,14 @@ func toCoca(m mgen.Model) []core_domain.CodeDataStruct {
 				}
 				f.Parameters = []core_domain.CodeProperty{{TypeType: "int", TypeValue: "n"}}
 			}
+			if xIsTest(i, j) {
+				f.Annotations = append(f.Annotations, core_domain.CodeAnnotation{Name: "Test"})
+			}
 			for k := range f.FunctionCalls {
 				f.FunctionCalls[k].Position = core_domain.CodePosition{StartLine: line + 1 + k, StartLinePosition: 8 + k, StopLine: line + 1 + k, StopLinePosition: 30}
+				for a := 0; a < xArgs(i, j, k); a++ {
+					f.FunctionCalls[k].Parameters = append(f.FunctionCalls[k].Parameters, core_domain.CodeProperty{TypeType: []string{"String", "int"}[a], TypeValue: []string{"s", "n"}[a]})
+				}
 			}
 			line += len(f.FunctionCalls) + 3
 		}
